@@ -134,7 +134,7 @@ def decide(prop, tier, seed, jobs, t0):
                    "discharged": 0, "solver_ms": r["solver_ms"], "queries": r["queries"]})
         if r["out_of_reach"]:
             undecided.append({"obligation": r["target"], "why": "out of reach: " + "; ".join(r["out_of_reach"][:3])})
-        if r["completed_paths"] == 0 and not r["out_of_reach"] and not any(o["verdict"] != "proved" for o in r["obligations"]):
+        if r["completed_paths"] == 0 and not r["out_of_reach"] and not r["obligations"]:
             errors.append("%s: no path reached the end of the function (vacuous contract?)" % r["target"])
         for oid, obs in sorted(per_id.items()):
             for o in obs:
